@@ -390,6 +390,149 @@ fn run_case(c: &Case, full_limit: usize, budget: &Budget) -> Result<CaseOut, Str
 	Ok(out)
 }
 
+
+// ---------------------------------------------------------------------------
+// Store level: damaged WAL of a small database, both recovery modes
+// ---------------------------------------------------------------------------
+
+struct StoreBase {
+	dir: PathBuf,
+	wal_file: PathBuf,
+	pristine: Vec<u8>,
+	ends: Vec<u64>,
+	n: usize,
+}
+
+fn build_store_base(n: usize) -> Result<StoreBase, String> {
+	use crate::model::Write;
+	use crate::world::{OptSet, World};
+	let opt = OptSet::base("L2");
+	let mut w = World::new(opt, &[])?;
+	w.own_dir = false;
+	for i in 0..n {
+		w.commit(&[Write::set(format!("k{i:02}").as_bytes(), format!("v{i:02}").as_bytes())], surrealkv::Durability::Eventual)?.map_err(|e| e)?;
+	}
+	w.close()?;
+	let dir = w.dir.clone();
+	let wal_file = dir.join("wal").join(format!("{:020}.wal", 0));
+	let pristine = std::fs::read(&wal_file).map_err(|e| format!("{e}"))?;
+	let (got, end) = verif_wal_read_segment_offsets(&wal_file, 0).map_err(|e| format!("{e}"))?;
+	if got.len() != n || end != VWalEnd::Eof {
+		return Err(format!("store base WAL holds {} records (expected {n}), end {end:?}", got.len()));
+	}
+	Ok(StoreBase {
+		dir,
+		wal_file,
+		pristine,
+		ends: got.iter().map(|g| g.1).collect(),
+		n,
+	})
+}
+
+fn store_judge(base: &StoreBase, d: &Damage, work: &Path) -> Option<(String, String)> {
+	use crate::model::Write;
+	use crate::world::{OptSet, World};
+	let dk = match d {
+		Damage::Truncate(_) => "truncate",
+		Damage::Xor(..) => "flip",
+	};
+	let n_before = base.ends.iter().filter(|e| (**e as usize) <= d.pos()).count();
+	let prep = |dst: &Path| -> Result<(), String> {
+		let _ = std::fs::remove_dir_all(dst);
+		crate::util::copy_dir(&base.dir, dst).map_err(|e| format!("{e}"))?;
+		let wf = dst.join("wal").join(base.wal_file.file_name().unwrap());
+		std::fs::write(&wf, d.apply(&base.pristine)).map_err(|e| format!("{e}"))
+	};
+	let keys_of = |c: &crate::world::Pairs| -> Vec<String> { c.iter().map(|(k, _)| String::from_utf8_lossy(k).to_string()).collect() };
+	let r = crate::util::guarded(|| -> Option<(String, String)> {
+		// what does the file-level reader say about this damage?
+		let probe = work.join("probe");
+		if let Err(e) = prep(&probe) {
+			return Some(("machinery".into(), e));
+		}
+		let wf = probe.join("wal").join(base.wal_file.file_name().unwrap());
+		let detected = matches!(verif_wal_read_segment(&wf, 0), Ok((_, VWalEnd::Corruption { .. })));
+		// --- tolerant mode ---
+		let tdir = work.join("tolerant");
+		if let Err(e) = prep(&tdir) {
+			return Some(("machinery".into(), e));
+		}
+		let mut w = World::attach(OptSet::base("L2"), &tdir, &[]);
+		if let Err(e) = w.open() {
+			return Some((format!("store-open-fails:{dk}"), format!("tolerant open: {e}")));
+		}
+		let c1 = match w.dump() {
+			Ok(c) => c,
+			Err(e) => return Some((format!("store-read-error:{dk}"), e)),
+		};
+		let exp_prefix = |m: usize| -> Vec<String> { (0..m).map(|i| format!("k{i:02}")).collect() };
+		let m = c1.len();
+		if keys_of(&c1) != exp_prefix(m) || m > base.n {
+			return Some((format!("store-not-a-prefix:{dk}"), format!("recovered keys {:?}", keys_of(&c1))));
+		}
+		if m < n_before {
+			return Some((format!("store-lost-valid-record:{dk}"), format!("recovered {m} commits, {n_before} records lie wholly before the damage")));
+		}
+		// two more commits, clean close, reopen
+		for (k, v) in [("new1", "x1"), ("new2", "x2")] {
+			match w.commit(&[Write::set(k.as_bytes(), v.as_bytes())], surrealkv::Durability::Immediate) {
+				Ok(Ok(())) => {}
+				other => return Some((format!("store-commit-after-recovery-fails:{dk}"), format!("{other:?}"))),
+			}
+		}
+		if let Err(e) = w.close() {
+			return Some((format!("store-close-fails:{dk}"), e));
+		}
+		if let Err(e) = w.open() {
+			return Some((format!("store-reopen-fails:{dk}"), format!("open after recovery+commits+close: {e}")));
+		}
+		let c2 = match w.dump() {
+			Ok(c) => c,
+			Err(e) => return Some((format!("store-read-error:{dk}"), e)),
+		};
+		let mut exp = exp_prefix(m);
+		exp.push("new1".into());
+		exp.push("new2".into());
+		if keys_of(&c2) != exp {
+			let class = if detected { "after-repair" } else { "no-repair" };
+			return Some((format!("store-lost-commit-after-recovery:{dk}:{class}"), format!("after recovery ({m} commits), 2 Immediate commits, clean close, open: keys {:?}", keys_of(&c2))));
+		}
+		w.abandon();
+		// --- absolute consistency ---
+		let adir = work.join("absolute");
+		if let Err(e) = prep(&adir) {
+			return Some(("machinery".into(), e));
+		}
+		let before = crate::util::dir_snapshot(&adir);
+		let mut o = OptSet::base("L2-absolute");
+		o.absolute_consistency = true;
+		let mut w = World::attach(o, &adir, &[]);
+		let r = w.open();
+		if detected {
+			if r.is_ok() {
+				return Some((format!("absolute-mode-opened-damaged-log:{dk}"), "AbsoluteConsistency: build() succeeded on a log the reader reports as corrupt".into()));
+			}
+			w.abandon();
+			let mut after = crate::util::dir_snapshot(&adir);
+			let mut b = before.clone();
+			after.remove("LOCK");
+			b.remove("LOCK");
+			if after != b {
+				let changed: Vec<&String> = after.keys().filter(|k| after.get(*k) != b.get(*k)).chain(b.keys().filter(|k| !after.contains_key(*k))).collect();
+				return Some((format!("absolute-mode-touched-files:{dk}"), format!("files changed by a refused open: {changed:?}")));
+			}
+		} else if let Err(e) = r {
+			// undamaged (or harmlessly damaged) log must open
+			return Some((format!("absolute-mode-refused-clean-log:{dk}"), format!("{e}")));
+		}
+		None
+	});
+	match r {
+		Ok(x) => x,
+		Err(p) => Some((format!("store-panic:{dk}:{}", crate::props::norm_msg(&p)), p)),
+	}
+}
+
 pub fn check(tier: Tier) -> i32 {
 	let mut report = Report::new("C12", tier, "fault_enumeration");
 	let budget = Budget::new(if tier == Tier::Quick { 50.0 } else { 1100.0 });
@@ -431,6 +574,60 @@ pub fn check(tier: Tier) -> i32 {
 			}
 		}
 	}
+	// store-level part
+	let mut store_evals = 0u64;
+	{
+		let ncommits = if tier == Tier::Quick { 8 } else { 20 };
+		let base = match build_store_base(ncommits) {
+			Ok(b) => b,
+			Err(e) => {
+				eprintln!("machinery: store base: {e}");
+				return 2;
+			}
+		};
+		let mut damages = vec![];
+		for p in 0..base.pristine.len() {
+			damages.push(Damage::Truncate(p));
+			damages.push(Damage::Xor(p, 0xff));
+			if tier == Tier::Thorough {
+				for bit in 0..8 {
+					damages.push(Damage::Xor(p, 1 << bit));
+				}
+			} else {
+				damages.push(Damage::Xor(p, 0x01));
+			}
+		}
+		let found: Mutex<Vec<(usize, String, String)>> = Mutex::new(vec![]);
+		let done = std::sync::atomic::AtomicU64::new(0);
+		damages.par_iter().enumerate().for_each(|(i, d)| {
+			if budget.exhausted() {
+				return;
+			}
+			let work = fresh_dir("walstore");
+			if let Some((c, t)) = store_judge(&base, d, &work) {
+				found.lock().unwrap().push((i, c, t));
+			}
+			done.fetch_add(1, std::sync::atomic::Ordering::Relaxed);
+			let _ = std::fs::remove_dir_all(&work);
+		});
+		store_evals = done.load(std::sync::atomic::Ordering::Relaxed);
+		let mut found = found.into_inner().unwrap();
+		found.sort_by_key(|f| f.0);
+		for (i, c, t) in found {
+			if c == "machinery" {
+				eprintln!("machinery: {t}");
+				return 2;
+			}
+			*per_class.entry(c.clone()).or_default() += 1;
+			first.entry(c).or_insert((format!("[store, {} commits in the WAL ({} bytes)] {} => {}", base.n, base.pristine.len(), damages[i].short(), t), json!({"engine": "c12-store", "commits": base.n, "damage": damages[i].to_json()})));
+		}
+		report.set("store_level", json!({"commits": base.n, "wal_bytes": base.pristine.len(), "damages": damages.len(), "judged": store_evals}));
+		if (store_evals as usize) < damages.len() {
+			report.set("store_level_cap_hit", json!(true));
+		}
+		let _ = std::fs::remove_dir_all(&base.dir);
+	}
+	evaluations += store_evals;
 	for (class, n) in &per_class {
 		let (text, replay) = first.get(class).cloned().unwrap_or_default();
 		report.violations.push(Violation {
@@ -455,6 +652,7 @@ pub fn check(tier: Tier) -> i32 {
 	report.set("cases_skipped_by_time_cap", json!(sk));
 	report.set("damage_positions", json!(positions));
 	report.set("exhaustive", json!(sk == 0 && !budget.exhausted()));
+	report.assume("store-level part: one database whose WAL holds n small commits; every byte position: truncation, XOR 0xff and bit flips (quick: bit 0 only); tolerant mode: open, scan, 2 Immediate commits, clean close, open; absolute-consistency mode: open must fail iff the file-level reader reports corruption and must leave every file untouched");
 	report.set("failures_per_class", json!(per_class));
 	report.assume("file-level part: real Wal writer / Reader / repair_corrupted_wal_segment through the verif facade; the store-level recovery path is judged by the crash engine (C02/C03)");
 	report.assume("record contents are fixed deterministic patterns; a damage that happens to keep the CRC valid would be reported (none possible for single-bit/byte damage under CRC32)");
@@ -462,6 +660,36 @@ pub fn check(tier: Tier) -> i32 {
 }
 
 pub fn replay(r: &J) -> i32 {
+	if r["engine"] == "c12-store" {
+		let base = match build_store_base(r["commits"].as_u64().unwrap() as usize) {
+			Ok(b) => b,
+			Err(e) => {
+				eprintln!("machinery: {e}");
+				return 2;
+			}
+		};
+		let d = Damage::from_json(&r["damage"]);
+		println!("replaying C12 store-level {}", d.short());
+		let w1 = fresh_dir("walstore");
+		let a = store_judge(&base, &d, &w1);
+		let b = store_judge(&base, &d, &w1);
+		let _ = std::fs::remove_dir_all(&w1);
+		let _ = std::fs::remove_dir_all(&base.dir);
+		if a.as_ref().map(|x| &x.0) != b.as_ref().map(|x| &x.0) {
+			eprintln!("machinery: replay not deterministic");
+			return 2;
+		}
+		return match a {
+			Some((c, t)) => {
+				println!("VIOLATION property=C12 replay=<this file>\n  class={c} {t}");
+				1
+			}
+			None => {
+				println!("replay passed: no violation");
+				0
+			}
+		};
+	}
 	let c = Case::from_json(&r["case"]);
 	println!("replaying C12 {} damage {}", c.name(), r["damage"]);
 	let run = || -> Result<Option<(String, String)>, String> {
